@@ -213,16 +213,17 @@ def run(ctx):
                                   no_input=True)
                 elif code != 0:
                     ctx.violation("model-run-%s-%s" % (p, fn), dict(rep, code=code), "model of pass %s cannot be evaluated (code %d)" % (p, code), no_input=True)
-                if PASS[p] in (3, 4, 5):
-                    has_mcp0 = PASS[p] == 3 and any(o["kind"]["k"] in ("mcp", "mcpi") for o in e["ops"]["ops"])
-                    kind = "holds" if side == 0 else ("unproved-mcp" if has_mcp0 else "fails")
-                    side_hist.setdefault(p, {}); side_hist[p][kind] = side_hist[p].get(kind, 0) + 1
-                    if kind == "fails" and d in differing:
-                        side_hist[p]["fails-with-behavioural-difference-reported"] = side_hist[p].get("fails-with-behavioural-difference-reported", 0) + 1
-                    elif kind == "fails":
-                        ctx.violation("side-%s-%s-%s" % (p, os.path.basename(d), fn), rep,
-                                      "pass %s on %s/%s deleted an instruction where the preservation theorem's side condition (pure, written registers dead) fails" % (p, os.path.basename(d), fn),
-                                      no_input=True)
+                # precondition of the pass's preservation theorem (use/def table well-formedness; for
+                # remove_sequential_jumps also: the flags the new NOOPs clear are dead)
+                kind = "holds" if side == 0 else "fails"
+                side_hist.setdefault(p, {}); side_hist[p][kind] = side_hist[p].get(kind, 0) + 1
+                if kind == "fails" and d in differing:
+                    side_hist[p]["fails-with-behavioural-difference-reported"] = side_hist[p].get("fails-with-behavioural-difference-reported", 0) + 1
+                elif kind == "fails":
+                    what = ("put a NOOP (clears $of/$err) in place of a jump where the flags are live, or the table is malformed"
+                            if PASS[p] == 1 else "was applied to a program whose use/def table does not meet the precondition of its preservation theorem")
+                    ctx.violation("side-%s-%s-%s" % (p, os.path.basename(d), fn), rep,
+                                  "pass %s on %s/%s %s" % (p, os.path.basename(d), fn, what), no_input=True)
     elif not infra:
         ctx.violation("no-dumps", {"status": status}, "no asm_pass dumps were produced", no_input=True)
     ctx.coverage.update({
